@@ -43,6 +43,8 @@ def shard(args):
         head, body = make_request(r, mp, framing)
         res = b'HTTP/1.1 200 OK\r\nContent-Length: 0\r\n\r\n'
         cfg = {'PERSONALITY': r.randrange(10), 'MULTIPART_PARSER': 1, 'URLENC_PARSER': r.randrange(2), 'DUMP': hxb.DUMP_TX | hxb.DUMP_BODY}
+        if r.chance(0.25):
+            cfg['EXTRACT_FILES'] = 64      # file parts are also written to disk; the extracted files must hold the same bytes
         req = head + body
         chunkings = [('whole', [req]), ('head+body', [head, body]), ('bytes', [head] + [body[k:k + 1] for k in range(len(body))])]
         for _ in range(5):
